@@ -37,8 +37,8 @@ var (
 	curCase atomic.Value // string: the case being run (for the watchdog)
 	beat    atomic.Int64
 	curLine atomic.Value // string: its case line
-	curFile *os.File // the case being run, for the supervising parent (a Go stack overflow cannot be recovered)
-	rawMode bool     // stage "raw": sqlx.SortChanges alone, on the unsorted change list
+	curFile *os.File     // the case being run, for the supervising parent (a Go stack overflow cannot be recovered)
+	rawMode bool         // stage "raw": sqlx.SortChanges alone, on the unsorted change list
 )
 
 // supervise runs the generator in a child process. Unbounded recursion in the planner
@@ -85,6 +85,13 @@ func main() {
 	if *outDir == "" {
 		fmt.Fprintln(os.Stderr, "missing -out")
 		os.Exit(2)
+	}
+	if *mode == "gen" { // generator of coq/theories/gen/Gen_TidbPriority.v (props/C04.json: "gen")
+		if err := genTidbPriority(*outDir); err != nil {
+			fmt.Fprintln(os.Stderr, "gen:", err)
+			os.Exit(1)
+		}
+		return
 	}
 	if os.Getenv("VERIF_SORT_CHILD") == "" {
 		supervise(*outDir)
@@ -138,6 +145,14 @@ func main() {
 	case "big":
 		symOff = 50
 		genLarge(w, *tier)
+	case "tidb":
+		symOff = 50
+		tidbMode = true
+		if err := openTidb(); err != nil {
+			fmt.Fprintln(os.Stderr, "tidb:", err)
+			os.Exit(2)
+		}
+		genTidb(w, *tier)
 	default:
 		fmt.Fprintln(os.Stderr, "unknown mode")
 		os.Exit(2)
@@ -584,14 +599,19 @@ func runCase(w *out.W, id string, sc *scenario, tags ...string) {
 	var obs []string
 	nontrivial := false
 	hasObj := sc.hasObjects()
-	for _, ep := range []struct {
+	type entry struct {
 		name string
 		run  func() runRes
-	}{
+	}
+	eps := []entry{
 		{"sort", func() runRes { return runSort(sc) }},
 		{"mysql", func() runRes { return runPlanner(sc, mysql.DefaultPlan, "int") }},
 		{"pg", func() runRes { return runPlanner(sc, postgres.DefaultPlan, "integer") }},
-	} {
+	}
+	if tidbMode { // stage "tidb": the planner mysql.Open installs for a TiDB server, alone
+		eps = []entry{{"tidb", func() runRes { return runPlanner(sc, tidbPlan, "int") }}}
+	}
+	for _, ep := range eps {
 		if (hasObj || sc.hasTypes()) && ep.name == "mysql" {
 			continue // the MySQL planner has no object (enum type) changes
 		}
@@ -627,12 +647,38 @@ func runCase(w *out.W, id string, sc *scenario, tags ...string) {
 		}
 		for _, v := range viol {
 			class := v.class
-			if class == "fk-before-table" && cyc && isRepoint(sc, v) {
+			if tidbMode && class == "fk-before-table" && isRepoint(sc, v) {
+				// TiDB planner: priority(ModifyForeignKey) = 3 < priority(AddTable) = 4 puts the re-pointed key in
+				// front of the CREATE TABLE of its new parent (finding C04-tidb-modfk-priority); its own class
+				class = "tidb-modfk-before-table"
+			} else if class == "fk-before-table" && cyc && isRepoint(sc, v) {
 				// the FK is the To side of a ModifyForeignKey and the change set has a cycle
 				// (former finding C04-modfk-detached, repaired in dependsOn; kept as its own class)
 				class = "modfk-before-table-detached"
 			}
 			w.Violation(id, class, fmt.Sprintf("%s: %s; plan %s; case: %s", ep.name, v.msg, showOut(r.outp), line))
+		}
+		if ep.name == "tidb" {
+			// C04_tidb_unsafe_class / the conjectured exact exception: the TiDB plan fails iff a ModifyForeignKey
+			// is re-pointed to a table the change set creates
+			if hyp {
+				w.Count("hyp:WF+consistent")
+				predicted := "ok"
+				if tidbRepointsToCreated(sc) {
+					predicted = "fail"
+				}
+				if predicted == verdict {
+					w.Count("exact:tidb-predicted-" + verdict)
+				} else {
+					w.Count("exact:tidb-MISPREDICTED-" + verdict)
+				}
+			} else {
+				w.Count("hyp:not-WF-or-inconsistent")
+			}
+			if showOut(r.outp) != showOut(in) {
+				nontrivial = true
+			}
+			w.Count("replay:" + verdict)
 		}
 		if ep.name == "sort" {
 			// the hypotheses of the theorems on this case, and C04_safe_exact's prediction
@@ -1261,11 +1307,16 @@ func schTags(sc *scenario, tags ...string) []string {
 // FK chains, sometimes a cycle; create-all / drop-all / modify-all / mixed; the change list in a random
 // order, or children first (child, unrelated ..., parent), or with the drop-only ModifyTables moved to the end.
 func genLarge(w *out.W, tier string) {
-	w.Rule = "seeded random change sets of 13..40 changes (Go's sort.Slice is an insertion sort up to 12 elements and pdqsort, not stable, beyond): 60..85% of the tables unrelated (no foreign keys), 1..4 FK chains of 2..6 tables, 1 case in 4 with a planted cycle, 1 in 5 with a few extra edges; roles create-all / drop-all / modify-all (4 readings; a ModifyTable's T.ForeignKeys never lists the keys it adds) / mixed incl. kept tables; order: random / children before parents with unrelated tables between them / drop-only ModifyTables last. Compared with the model: the multiset of planned changes + replay verdict (the order of equal sort keys is pdqsort's); the order is judged by the oracle (reference catalogue, same-value replanning) on the Go plans. Non-trivial = the planned order differs from the input order"
+	if !tidbMode {
+		w.Rule = "seeded random change sets of 13..40 changes (Go's sort.Slice is an insertion sort up to 12 elements and pdqsort, not stable, beyond): 60..85% of the tables unrelated (no foreign keys), 1..4 FK chains of 2..6 tables, 1 case in 4 with a planted cycle, 1 in 5 with a few extra edges; roles create-all / drop-all / modify-all (4 readings; a ModifyTable's T.ForeignKeys never lists the keys it adds) / mixed incl. kept tables; order: random / children before parents with unrelated tables between them / drop-only ModifyTables last. Compared with the model: the multiset of planned changes + replay verdict (the order of equal sort keys is pdqsort's); the order is judged by the oracle (reference catalogue, same-value replanning) on the Go plans. Non-trivial = the planned order differs from the input order"
+	}
 	r := rng.FromEnv(0xC04B)
 	count := 2500
 	if tier == "thorough" {
 		count = 60000
+	}
+	if tidbMode {
+		count = count / 5
 	}
 	for k := 0; k < count; k++ {
 		n := 13 + r.Intn(28)
